@@ -530,6 +530,16 @@ def _fkey(obj):
     f = getattr(obj, '__func__', obj)
     code = getattr(f, '__code__', None)
     if code is not None:
+        cl = getattr(f, '__closure__', None)
+        if cl:
+            # closures created by one decorator share a code object: tell them apart by what they close over
+            ids = []
+            for c in cl:
+                try:
+                    ids.append(id(c.cell_contents))
+                except ValueError:
+                    ids.append(0)
+            return ('code', code.co_filename, code.co_firstlineno, code.co_name, tuple(ids))
         return ('code', code.co_filename, code.co_firstlineno, code.co_name)
     return ('obj', id(obj))
 
